@@ -808,3 +808,6 @@ B('C09', 'find_term does not look under binders', 'logic/matcher.py',
   "    if t.is_abs():\n        return find_term(t.body, sub_t)\n    return False", "    if t.is_abs():\n        return False\n    return False", 'C09.N7', 'find_term')
 B('C08', 'annotation search does not look under binders', 'syntax/infertype.py',
   "                        to_replaceT = t.var_T\n                find_to_replace(t.body)", "                        to_replaceT = t.var_T", 'C08.U7', 'find_to_replace')
+B('C20', 'HOL-level parser: multiplication and addition on one level', 'imperative/parser.py',
+  '    ?times: times "*" atom -> times_expr | atom   // Multiplication binds tighter than addition\n\n    ?expr: expr "+" times -> plus_expr | times',
+  '    ?expr: expr "+" expr -> plus_expr | expr "*" expr -> times_expr | atom', 'C20.P1', 'imperative/parser.py :: expr')
